@@ -7,6 +7,8 @@ use serde_json::{json, Value};
 use super::util::*;
 use crate::ev::{guard, unit, Plan, Reporter, Stats, Tier};
 use crate::front::{self, Front, Geom};
+#[allow(unused_imports)]
+use crate::ev::guard as _guard_alias;
 use crate::model::*;
 
 pub const LOS: [Lo; 3] = [Lo::None, Lo::Ge, Lo::Gt];
@@ -186,6 +188,27 @@ pub fn run_case(kvs: &[Kv], geom: Geom, sc: Scope) -> Result<u64, String> {
 pub fn replay(case: &Value) -> Result<String, String> {
     let kvs = kvs_from(&case["kvs"]);
     let geom = geom_from(&case["geom"]);
+    if case["gaps"].as_bool() == Some(true) {
+        // every one- and two-byte bound (first byte p or none) on this FST
+        let bytes = front::build(Front::RawInsert, geom, &kvs)?;
+        return guard(|| {
+            let f = Fst::new(&bytes[..]).map_err(|e| format!("{:?}", e))?;
+            let mut n = 0u64;
+            for b in 0..=255u8 {
+                for bk in [vec![b], vec![b'p', b], vec![b, b'x'], vec![b'p', b, b'x']] {
+                    for lo in [Lo::Ge, Lo::Gt] {
+                        let got = drain(apply_bounds(f.range(), lo, &bk, Hi::None, b"").into_stream())?;
+                        n += 1;
+                        if got != expected(&kvs, lo, &bk, Hi::None, b"") {
+                            return Err(format!("range {:?}({}) gave {} items, expected {}", lo, key_str(&bk), got.len(), expected(&kvs, lo, &bk, Hi::None, b"").len()));
+                        }
+                    }
+                }
+            }
+            Ok(format!("{} streams agree", n))
+        })
+        .and_then(|x| x);
+    }
     let sc = Scope { full_bounds: true, wrappers: true, repeats: true };
     run_case(&kvs, geom, sc).map(|n| format!("{} streams agree", n))
 }
@@ -278,6 +301,72 @@ pub fn plan(tier: Tier) -> Plan {
                 }
             }));
         }
+    }
+    // wide nodes whose labels have gaps (spread / last variants, across the
+    // index threshold), with EVERY byte as a one- or two-byte lower/upper bound
+    for n in [2usize, 3, 31, 32, 33, 34, 40, 64, 100, 200, 255, 256] {
+        p.units.push(unit("wide-nodes-with-gaps-every-byte-as-bound", format!("gaps fan-out {}", n), move |st, rep| {
+            let label_sets: Vec<Vec<u8>> = vec![
+                (0..n).map(|i| ((i * 256) / n) as u8).collect(),
+                (0..n).map(|i| (256 - n + i) as u8).collect(),
+                (0..n).map(|i| (i as u8).wrapping_mul(1)).collect(),
+                (0..n).map(|i| (((i * 251) / n) as u8).saturating_add(if i + 1 == n { 4 } else { 0 })).collect(),
+            ];
+            for labels in label_sets {
+                let mut labels = labels;
+                labels.sort();
+                labels.dedup();
+                for depth in 0..2usize {
+                    let mut kvs: Vec<Kv> = vec![];
+                    for (i, &b) in labels.iter().enumerate() {
+                        let mut k = if depth == 1 { vec![b'p'] } else { vec![] };
+                        k.push(b);
+                        kvs.push((k.clone(), 3 * i as u64 + 1));
+                        if i % 3 == 0 {
+                            k.push(b'x');
+                            kvs.push((k, 1000 + i as u64));
+                        }
+                    }
+                    kvs.sort();
+                    st.states += 1;
+                    st.nontrivial += 1;
+                    st.count("gap_cases", 1);
+                    let r = guard(|| {
+                        let bytes = front::build(Front::RawInsert, (3, 3), &kvs)?;
+                        let f = Fst::new(&bytes[..]).map_err(|e| format!("{:?}", e))?;
+                        let mut cnt = 0u64;
+                        for b in 0..=255u8 {
+                            let bound: Vec<u8> = if depth == 1 { vec![b'p', b] } else { vec![b] };
+                            let bound2: Vec<u8> = bound.iter().cloned().chain([b'x']).collect();
+                            for bk in [&bound, &bound2] {
+                                for lo in [Lo::Ge, Lo::Gt] {
+                                    for (hi, hik) in [(Hi::None, vec![]), (Hi::Le, vec![0xf0u8]), (Hi::Lt, bound2.clone())] {
+                                        let got = drain(apply_bounds(f.range(), lo, bk, hi, &hik).into_stream())?;
+                                        cnt += 1;
+                                        if got != expected(&kvs, lo, bk, hi, &hik) {
+                                            return Err(format!("range {:?}({}) {:?}({}) over a node with {} spread labels gave {} items, expected {}", lo, key_str(bk), hi, key_str(&hik), labels.len(), got.len(), expected(&kvs, lo, bk, hi, &hik).len()));
+                                        }
+                                    }
+                                }
+                                for hi in [Hi::Le, Hi::Lt] {
+                                    let got = drain(apply_bounds(f.range(), Lo::None, b"", hi, bk).into_stream())?;
+                                    cnt += 1;
+                                    if got != expected(&kvs, Lo::None, b"", hi, bk) {
+                                        return Err(format!("range {:?}({}) over a node with {} spread labels differs from the model", hi, key_str(bk), labels.len()));
+                                    }
+                                }
+                            }
+                        }
+                        Ok(cnt)
+                    })
+                    .and_then(|x| x);
+                    match r {
+                        Ok(c) => { st.evals += c; st.transitions += c * 8; }
+                        Err(msg) => rep.violation(format!("gaps fan-out {} depth {} first labels {:?}", n, depth, &labels[..labels.len().min(4)]), msg, json!({"kvs": kvs_json(&kvs), "geom": [3, 3], "gaps": true})),
+                    }
+                }
+            }
+        }));
     }
     // long keys: bounds that are long prefixes / extensions / neighbours
     p.units.push(unit("long-key-family", "long keys".into(), move |st, rep| {
